@@ -18,6 +18,7 @@ RULE = (
     'N=3000, thorough N=20000), exhaustive.  Non-trivial (a) = at least one sample on a voxel edge or hostile value '
     'and a non-cubic grid; distinct = SHA-1 of (cell, resolution, positions) / grid size.'
 )
+RULE += ' Added in rounds 6-9: result retention and a second volume on the same grid while the first is held; L/resolution within 1e-8..6e-4 of an integer; one grid of about 19 million voxels (large along all three axes).'
 ASSUMPTIONS = [
     'a coordinate whose product with the grid size is within 1e-9 of an integer may be counted in either neighbouring voxel',
     'size inequalities use 1e-12 relative slack',
